@@ -991,6 +991,7 @@ def judge(w: World, scn: dict, st: dict):
 
     # ---- final quiescent probe: one live instance per module name, state shared
     final_views: dict = {}
+    stale_holders: dict = {}   # module -> tokens of the live file instances that hold a superseded instance of it
     n_peek = 0
     for m in w.marks[peek_from:]:
         if m["args"][0] != "peek":
@@ -1022,14 +1023,32 @@ def judge(w: World, scn: dict, st: dict):
                          f"{where} sees token {seen_tok!r} for {g} through {via}, drawn by {tok_owner(seen_tok)!r}", m["t"])
                     continue
                 final_views.setdefault(g, {}).setdefault(seen_tok, []).append(f"{fid} via {via}")
+                if seen_tok != latest_tok.get(g):
+                    stale_holders.setdefault(g, []).append(tok)
     n_entries = sum(1 for f in files if f in ENTRY_POOL)
-    if n_peek != n_entries:
-        raise HarnessError(f"C11: {n_peek} final probes for {n_entries} entry files")
     t_end = w.marks[-1]["t"] if w.marks else 0.0
+    if n_peek != n_entries:
+        # the look_<file> services were called (blocking) and exist; a missing marker means the probe chain raised
+        errs = [l["msg"].strip().split("\n")[-1][:160] for l in w.logs if l["level"] == "ERROR" and "boom" not in l["msg"]]
+        viol("C11.call_chain_deviates", {"expected": "peek", "got": None},
+             f"{n_entries - n_peek} of {n_entries} final probe chains (entry file -> peek() of every imported module) "
+             f"did not complete; error log: {errs[-3:]}", t_end)
+    load_iter = {x["kw"].get("tok"): x["iter"] for lst in loads.values() for x in lst}
+    first_reload = min(reload_iters) if reload_iters else None
     for g, views in sorted(final_views.items()):
         if len(views) > 1:
+            # who holds an instance other than the most recently loaded one: a file that was loaded before the first
+            # reload was issued (it should have been re-loaded with the module) or one loaded while/after it ran
+            holders = stale_holders.get(g, [])
+            if first_reload is None or not holders:
+                stale = "n/a"
+            elif any(load_iter.get(h, 0) < first_reload for h in holders):
+                stale = "importer_predates_reload"
+            else:
+                stale = "importer_loaded_during_or_after_reload"
             viol("C11.module_instances_differ",
-                 {"when": "final", "racing": any(racing_load.get(k) for k in views), "reload_issued": any_reload},
+                 {"when": "final", "racing": any(racing_load.get(k) for k in views), "reload_issued": any_reload,
+                  "stale": stale},
                  f"at the final quiescent point the live files hold {len(views)} instances of module {g}: "
                  + "; ".join(f"token {tk}: {sorted(set(who))}" for tk, who in sorted(views.items())), t_end,
                  once=("final", g))
